@@ -133,6 +133,8 @@ func srefAlphabet(level int) []dbx.Txn {
 		add(fmt.Sprintf("R %s.smap:={}", short(r)), opUpdate("R", r, rm.Row{"smap": rm.MapOf()}))
 		add(fmt.Sprintf("R %s.wset:=all", short(r)), opUpdate("R", r, rm.Row{"wset": uset(n1...)}))
 		add(fmt.Sprintf("R %s.sset:=all", short(r)), opUpdate("R", r, rm.Row{"sset": uset(n1...)}))
+		// a model written back: collections named at the value they may already hold, one scalar changed
+		add(fmt.Sprintf("R %s write-back sset,wset:=all cnt:=6", short(r)), opUpdate("R", r, rm.Row{"sset": uset(n1...), "wset": uset(n1...), "cnt": rm.SetOf(rm.I(6))}))
 		add(fmt.Sprintf("R %s.sset:=[]", short(r)), opUpdate("R", r, rm.Row{"sset": uset()}))
 		add(fmt.Sprintf("R %s.smap:={k1:%s,k2:%s}", short(r), short(n1[0]), short(n1[0])),
 			opUpdate("R", r, rm.Row{"smap": rm.MapOf(rm.S("k1"), rm.U(n1[0]), rm.S("k2"), rm.U(n1[0]))}))
